@@ -27,6 +27,9 @@ def CRes.show : CRes → String
   | .prev v => toString v
   | .value v => toString v
   | .upgraded ok => if ok then "some" else "none"
+  | .optPrev o => match o with
+    | Option.none => "none"
+    | some v => "some(" ++ toString v ++ ")"
 
 def parseCOp (s : String) : Option (COp × Bool) :=
   match s.splitOn ":" with
@@ -36,6 +39,9 @@ def parseCOp (s : String) : Option (COp × Bool) :=
   | ["get"] => some (.get, false)
   | ["drop"] => some (.dropClone, false)
   | ["up"] => some (.upgrade, false)
+  | ["sne", v] => v.toNat?.map fun v => (.sne v, false)
+  | ["upd", k] => k.toNat?.map fun k => (.update k, false)
+  | ["nextnow"] => some (.nextNow, false)
   | _ => none
 
 def concStep (s : CS) (toks : List String) : Option (CS × String) :=
